@@ -200,6 +200,8 @@ pub struct Sess<'a> {
     pub data: &'a Data,
     pub last: Obs,
     pub events: Vec<String>,
+    /// `type_text` passes the index selected in the list on display (as a front-end does) instead of 0
+    pub follow_sel: bool,
 }
 
 pub fn emit_fs(t: &mut Trace, xdg: &Path) {
@@ -253,7 +255,7 @@ impl<'a> Sess<'a> {
             Some(mut imp) => {
                 let on = imp.ongoing();
                 t.line(&format!("> N {}", if on { 1 } else { 0 }));
-                Some(Sess { id: id.into(), imp, layout: layout.into(), opts, xdg: xdg.to_path_buf(), data, last: Obs::Unit, events: vec![] })
+                Some(Sess { id: id.into(), imp, layout: layout.into(), opts, xdg: xdg.to_path_buf(), data, last: Obs::Unit, events: vec![], follow_sel: true })
             }
             None => { t.line("> PANIC"); None }
         }
@@ -332,7 +334,7 @@ impl<'a> Sess<'a> {
         for c in text.chars() {
             let code = crate::keys::code_for_char(c).unwrap_or_else(|| panic!("untypeable char {:?}", c));
             // as a front-end does: pass the index currently selected in the list on display
-            let sel = match &self.last { Obs::Full { sel, cands, .. } if *sel < cands.len() => (*sel).min(255) as u8, _ => 0 };
+            let sel = match &self.last { Obs::Full { sel, cands, .. } if self.follow_sel && *sel < cands.len() => (*sel).min(255) as u8, _ => 0 };
             o = self.key(t, code, 0, sel);
         }
         o
